@@ -439,3 +439,50 @@ func VerifHarness_C13_ScalarOperands() {
 	}
 	vsymReach("C13_scalar_operands")
 }
+
+// C12-O3c: a vector(n) operand is a VECTOR (one series with the empty label
+// set), not a scalar: through the real build(), `count_over_time(...) op
+// vector(3)` (either side) yields a series only when the range aggregation's
+// series has the very label set of the vector's series; the key of the other
+// series is symbolic.
+func VerifHarness_C12_VectorOperandJoin() {
+	ops := []logql.BinOp{logql.OpAdd, logql.OpSub, logql.OpMul, logql.OpDiv}
+	op := ops[vsymChoice("op", len(ops))]
+	vecLeft := vsymBool("vectorOnTheLeft")
+	k := vsymUint64("key")
+	one := &verifSeries{key: k, name: "s"}
+	t0 := time.Unix(1700000000, 0)
+	in := []SampledEntry{
+		{Sample: 1, Timestamp: otelstorageTS(int(t0.UnixNano()) - 5), Set: one},
+		{Sample: 1, Timestamp: otelstorageTS(int(t0.UnixNano()) - 3), Set: one},
+	}
+	ra := &logql.RangeAggregationExpr{Op: logql.RangeOpCount}
+	ra.Range.Range = time.Minute
+	vec := &logql.VectorExpr{Value: 3}
+	sel := func(e *logql.RangeAggregationExpr, s, en time.Time) (iterators.Iterator[SampledEntry], error) {
+		return iterators.Slice(in), nil
+	}
+	params := EvalParams{Start: t0, End: t0, Step: time.Second}
+	vit, err := build(vec, nil, params)
+	vsymAssert(err == nil, "vector(n) builds")
+	var vst Step
+	vsymAssert(vit.Next(&vst) && len(vst.Samples) == 1, "vector(n) is one series")
+	vk := vst.Samples[0].Set.Key()
+	var expr logql.Expr = &logql.BinOpExpr{Left: ra, Op: op, Right: vec}
+	l, r := 2.0, 3.0
+	if vecLeft {
+		expr = &logql.BinOpExpr{Left: vec, Op: op, Right: ra}
+		l, r = 3.0, 2.0
+	}
+	it, err := build(expr, sel, params)
+	vsymAssert(err == nil, "range aggregation op vector(n) builds")
+	var st Step
+	vsymAssert(it.Next(&st), "one step out")
+	if k == vk {
+		want, _, _ := verifRefBinOp(op, l, r)
+		vsymAssert(len(st.Samples) == 1 && vsymSameFloat(st.Samples[0].Data, want), "equal label sets are joined and combined")
+	} else {
+		vsymAssert(len(st.Samples) == 0, "a series whose label set differs from the vector's (empty) label set has no partner: vector(n) is joined on label sets like any other vector")
+	}
+	vsymReach("C12_vector_operand_join")
+}
